@@ -105,6 +105,10 @@ def run_one(case, ctx, filter_args):
     sstr = ("method " if method else "") + gen_sig.sig_str(sig)
     for npos, kwnames in gen_sig.call_shapes(sig):
         args, kwargs = gen_sig.values_for(npos, kwnames)
+        if method and npos and (npos + len(kwnames)) % 3 == 0:
+            # value-dependent corner: the instance the method is bound to is itself passed as an argument
+            args = (obj,) + args[1:]
+            ctx.count("method_calls_passing_the_instance_itself")
         ctx.evaluated()
         exp = gen_sig.python_binding(func, args, kwargs)
         if exp is None:
